@@ -67,6 +67,8 @@ impl BasicLexer {
         let mut line_str_pos: usize = 0;
         let mut seen_digit = false;
         while let Some(s) = source_line.get(line_str_pos..) {
+            #[cfg(ae9rb_basic_lang_verif)]
+            crate::mach::verif::tick("lex::line_number");
             if let Some(ch) = s.chars().next() {
                 if seen_digit && is_basic_whitespace(ch) {
                     break;
@@ -218,6 +220,8 @@ impl BasicLexer {
     fn whitespace(&mut self) -> Option<Token> {
         let mut len = 0;
         loop {
+            #[cfg(ae9rb_basic_lang_verif)]
+            crate::mach::verif::tick("lex::whitespace");
             self.chars.pop_front();
             len += 1;
             if let Some(pk) = self.chars.front() {
@@ -235,6 +239,8 @@ impl BasicLexer {
         let mut decimal = false;
         let mut exp = false;
         while let Some(mut ch) = self.chars.pop_front() {
+            #[cfg(ae9rb_basic_lang_verif)]
+            crate::mach::verif::tick("lex::number");
             if ch == 'e' {
                 ch = 'E'
             }
@@ -300,6 +306,8 @@ impl BasicLexer {
         let mut s = String::new();
         self.chars.pop_front();
         while let Some(ch) = self.chars.pop_front() {
+            #[cfg(ae9rb_basic_lang_verif)]
+            crate::mach::verif::tick("lex::string");
             if ch == '"' {
                 break;
             }
@@ -312,6 +320,8 @@ impl BasicLexer {
         let mut s = String::new();
         let mut digit = false;
         while let Some(ch) = self.chars.pop_front() {
+            #[cfg(ae9rb_basic_lang_verif)]
+            crate::mach::verif::tick("lex::alphabetic");
             let ch = ch.to_ascii_uppercase();
             s.push(ch);
             if is_basic_digit(ch) {
@@ -365,6 +375,8 @@ impl BasicLexer {
         };
         let mut s = String::new();
         while let Some(ch) = self.chars.pop_front() {
+            #[cfg(ae9rb_basic_lang_verif)]
+            crate::mach::verif::tick("lex::radix");
             let ch = ch.to_ascii_uppercase();
             if ('0'..='7').contains(&ch)
                 || (is_hex && (('8'..='9').contains(&ch) || ('A'..='F').contains(&ch)))
@@ -385,6 +397,8 @@ impl BasicLexer {
     fn minutia(&mut self) -> Option<Token> {
         let mut s = String::new();
         while let Some(ch) = self.chars.pop_front() {
+            #[cfg(ae9rb_basic_lang_verif)]
+            crate::mach::verif::tick("lex::minutia");
             s.push(ch);
             if let Some(token) = Token::match_minutia(&s) {
                 return Some(token);
